@@ -119,6 +119,6 @@ def replay(ctx, path):
             if e["cell"] >= 0: nl.append(e["cell"])
         elif n == "PFree":
             k = nl.index(e["cell"]); nl.pop(k); lines.append("PFree %d" % k)
-    t = ctx.drive(drv, lines, "replay")
+    t = ctx.drive(drv, lines + core.fault_line(d), "replay")
     ctx.report(ctx.judge("AllocTrace", [t]))
     return ctx.finish(rule="replay of " + path)
